@@ -646,6 +646,10 @@ class BaseRequest(MutableMapping[str | RequestKey[Any], Any], HeadersMixin):
 
             if start is None and end is not None:
                 # end with no start is to return tail of content
+                if end == 0:
+                    # "bytes=-0" asks for the last zero bytes: unsatisfiable,
+                    # and -0 == 0 would silently turn it into the whole content.
+                    raise ValueError("suffix length cannot be zero")
                 start = -end
                 end = None
 
